@@ -200,8 +200,27 @@ def mutant_kinds() -> str:
     return _mutant_replay("mutant_kinds", "Kinds.tla", 'hasdfl |-> ~f.req /\\ kind # "typeddict"', "hasdfl |-> ~f.req", runner)
 
 
+def mutant_routerwrap() -> str:
+    """RouterWrap.tla with an unwrapping provider that does NOT start a new search (the inner request would see only the builtin
+    provider): the real retort must disagree - its exact-type providers are met after unwrapping"""
+    def runner():
+        from .props import c09
+        from .tlc import make_cfg
+        ctx = _ctx("routerwrap")
+        c09.run_tlc = __import__("vf.tlc", fromlist=["run_tlc"]).run_tlc
+        cfg = make_cfg(constants=dict(MaxLen=2, EmitCases=True), invariants=["EmitCase"])
+        res = c09.run_tlc(ctx.scratch, "RouterWrap", cfg, tag="RouterWrap_mutant", timeout_s=600)
+        n = 0
+        for o in c09.pmap(c09._replay_chunk, ((0, c) for c in res.records()), chunk=250):
+            n += len(o["bad"])
+        ctx.scratch.cleanup()
+        return n
+    return _mutant_replay("mutant_routerwrap", "RouterWrap.tla", "IF from > Len(r) THEN [Ref(WithBuiltin(r), 1) EXCEPT !.ab = FALSE]",
+                          "IF from > Len(r) THEN [Ref(WithBuiltin(r), Len(r) + 1) EXCEPT !.ab = FALSE]", runner)
+
+
 TESTS = {"binding_router": binding_router, "binding_heap": binding_heap, "binding_harvest": binding_harvest, "mutant_load": mutant_load, "mutant_layout": mutant_layout,
-         "mutant_kinds": mutant_kinds}
+         "mutant_kinds": mutant_kinds, "mutant_routerwrap": mutant_routerwrap}
 
 
 def main(which: str) -> int:
